@@ -59,6 +59,12 @@ def correspond(ctx):
         out = zk.zernikeRadialFunc(n, m, r)
         cases.append("okl %s %s (map (radial F %d %d) %s) %s" % (hexf(1e-10), hexf(float(numpy.abs(out).max())), n, m, flist(r), flist(out)))
         meta.append({"fn": "zernikeRadialFunc", "n": n, "m": m, "nontrivial": True})
+        # high radial orders (n >= 21: the factorials no longer fit 64-bit integers); the tolerance is the cancellation bound
+        n, m = rng.choice([(21, 1), (22, 2), (23, 3), (24, 0), (25, 5), (26, 4), (21, 21), (28, 2)])
+        r = npr.uniform(0, 1.0, size=5)
+        out = zk.zernikeRadialFunc(n, m, r)
+        cases.append("okl %s %s (map (radial F %d %d) %s) %s" % (hexf(4e-15), hexf(radial_exact(n, m, 1)[1]), n, m, flist(r), flist(out)))
+        meta.append({"fn": "zernikeRadialFunc/high order", "n": n, "m": m, "nontrivial": True})
         # normalisations and list/count dispatch
         J = rng.randint(3, 8)
         for norm, code in (("p2v", 1), ("rms", 2)):
@@ -96,10 +102,30 @@ def noll_of(n, m):
     return j0 if ((j0 % 2 == 0) == (m > 0)) else j0 + 1
 
 
+def radial_exact(n, m, r):
+    """(R_n^m(r), sum of |terms|) in exact rational arithmetic (r an int or a Fraction)"""
+    from fractions import Fraction
+    f = math.factorial
+    tot, mag = Fraction(0), Fraction(0)
+    for k in range((n - m) // 2 + 1):
+        c = Fraction((-1) ** k * f(n - k), f(k) * f((n + m) // 2 - k) * f((n - m) // 2 - k)) * Fraction(r) ** (n - 2 * k)
+        tot += c; mag += abs(c)
+    return float(tot), float(mag)
+
+
 def property_checks(inp):
     out = []
     A = out.append
     npr = numpy.random.default_rng(inp["data_seed"])
+    # the radial polynomial against exact rational arithmetic at rational radii, every order up to 30 (tolerance = cancellation bound)
+    from fractions import Fraction
+    worst_r = 0.0
+    for n_, m_ in [(inp["n"], inp["m_abs"]), (21 + inp["n"] % 10, (21 + inp["n"] % 10) % 2 + 2 * (inp["m_abs"] % 4))]:
+        for rq in (Fraction(1), Fraction(1, 2), Fraction(7, 8), Fraction(inp["j0"] % 97, 97)):
+            ex, mag = radial_exact(n_, m_, rq)
+            got = float(numpy.asarray(zk.zernikeRadialFunc(n_, m_, numpy.array([float(rq)])))[0])
+            worst_r = max(worst_r, abs(got - ex) / (4e-15 * mag + 1e-300))
+    A(("radial polynomial = exact rational value within the cancellation bound (orders up to 30, incl. n >= 21)", worst_r, 1.0))
     # indexing
     bad = 0
     prev = None
